@@ -20,6 +20,8 @@ def leaf(s):
         return datetime.datetime(2001, 1, 1, 12, 0, tzinfo=datetime.timezone.utc)
     if s == "@dec":
         return decimal.Decimal("1.5")
+    if s == "@qtydec":
+        return c.Quantity(decimal.Decimal("1.5"), "m")      # a Quantity whose magnitude has copy hooks of its own
     if s == "@int":
         return 7
     if s == "@set":
@@ -29,7 +31,7 @@ def leaf(s):
 
 def leaf_name(obj):
     import pvl.parser as P
-    for name in ("@empty", "@qty", "@dt", "@dec", "@int", "@set"):
+    for name in ("@empty", "@qty", "@qtydec", "@dt", "@dec", "@int", "@set"):
         ref = leaf(name)
         if type(obj) is type(ref) and obj == ref and (name != "@empty" or getattr(obj, "lineno", None) == 3):
             return name
